@@ -14,7 +14,7 @@
               ChangeCipherSpec during the dwell period re-sends the last flight), an early
               ChangeCipherSpec is discarded before the replay window sees it, replay window,
               handshake records while the ChangeCipherSpec is awaited or after completion are dropped
-     timers : dtlcp/retransmit.go (initial value doubling up to the maximum); read deadlines
+     timers : dtlcp/retransmit.go (initial value doubling up to the maximum; the maximum is deliberately not a power-of-two multiple of the initial value); read deadlines
    Network: harness/internal/tk/vnet.go (the deterministic virtual-time network the real
    endpoints are run on): zero latency, one datagram handed over per step in sending order,
    fault script by (sender, index): drop / duplicate / delay; time advances only when nothing is
@@ -44,7 +44,7 @@ Record cfg := mkCfg {
   tie : bool }.         (* simultaneous expiries: server first *)
 
 Definition t_init : N := 100.     (* InitialRetransmitTimeout *)
-Definition t_max : N := 1600.     (* MaxRetransmitTimeout *)
+Definition t_max : N := 1000.     (* MaxRetransmitTimeout *)
 Definition t_app : N := 400.      (* read deadline of the application programs *)
 Definition n_tries : N := 8.      (* client: pings *)
 Definition n_idle : N := 5.       (* server: consecutive idle reads *)
@@ -529,4 +529,4 @@ Fixpoint done_after_fin (s : side) (sent : list N) (handed : bool) (t : list (N 
   end.
 
 (* the values the retransmission timeout can take *)
-Definition schedule : list N := [100; 200; 400; 800; 1600].
+Definition schedule : list N := [100; 200; 400; 800; 1000].
